@@ -1,7 +1,7 @@
-SPECIFICATION Spec
+SPECIFICATION SafetySpec
 CONSTANTS
   Senders <- Senders3
   Script <- Script3
 INVARIANTS TypeOK Delivered GeneralOrder LastWins FoldRefinement OneTerminate OracleAgree
-PROPERTIES Refines AbsInit CollectorTerminates CollectReturns DropReturns
+PROPERTIES Refines AbsInit
 CHECK_DEADLOCK FALSE
